@@ -17,3 +17,5 @@ def run(prog, rep):
     _ro.run_name_first(prog, rep)
     from ..rules import r_key as _rk3
     _rk3.run_handles_only(prog, rep)
+    from ..rules import r_frame as _rfr
+    _rfr.run_front(prog, rep)
